@@ -46,6 +46,15 @@ def judge(scn, obs, world):
         if obs['final'] is None:
             continue
         named = bounced.get(k, set())
+        shifted = qc.index_shift(scn, obs, a)
+
+        def det(**kw):
+            if shifted:
+                return {'backend': 'persistent',
+                        'history': 'multi-round-relative-index'}
+            d = {'backend': be}
+            d.update(kw)
+            return d
         for r in m['rcpts']:
             if r in a['delivered']:
                 continue
@@ -55,7 +64,7 @@ def judge(scn, obs, world):
             if failed:
                 if m['sender'] and r not in named:
                     v.append({'clause': 'C01/no-bounce',
-                              'detail': {'backend': be},
+                              'detail': det(),
                               'msg': 'message %d recipient %s failed for good '
                                      'but no bounce to %s names it' % (
                                          k, r, m['sender'])})
@@ -69,8 +78,7 @@ def judge(scn, obs, world):
                 break
             if not stored:
                 v.append({'clause': 'C01/lost',
-                          'detail': {'backend': be,
-                                     'exceptions': exc_sites[:3]},
+                          'detail': det(exceptions=exc_sites[:3]),
                           'msg': 'message %d recipient %s: neither delivered '
                                  'nor bounced nor still in storage '
                                  '(attempts=%d, stored=%r, escaped exceptions '
@@ -78,7 +86,7 @@ def judge(scn, obs, world):
                                           a['stored'], exc_sites[:3])})
                 break
             v.append({'clause': 'C01/stuck',
-                      'detail': {'backend': be, 'exceptions': exc_sites[:3]},
+                      'detail': det(exceptions=exc_sites[:3]),
                       'msg': 'message %d recipient %s still outstanding in '
                              'storage at the horizon and not being retried '
                              '(attempts so far %d, queue internals %r, '
